@@ -15,12 +15,13 @@ import JRV.Driver.JsonClass
 import JRV.Driver.EndToEnd
 import JRV.Driver.Future
 import JRV.Driver.Pool
+import JRV.Driver.JsonText
 
 namespace JRV.Driver
 
 def components : List (String × (List String → String)) := [
   ("echo", echo), ("norm", norm), ("truthy", truthyC), ("pyeq", pyeqC), ("cmpint", cmpIntC)
-] ++ clientComponents ++ payloadComponents ++ headersComponents ++ wireComponents ++ configHeapComponents ++ transportComponents ++ serverLifeComponents ++ serverComponents ++ jsonClassComponents ++ endToEndComponents ++ futureComponents ++ poolComponents
+] ++ clientComponents ++ payloadComponents ++ headersComponents ++ wireComponents ++ configHeapComponents ++ transportComponents ++ serverLifeComponents ++ serverComponents ++ jsonClassComponents ++ endToEndComponents ++ futureComponents ++ poolComponents ++ jsonTextComponents
 
 def handle (line : String) : String :=
   match JRV.Codec.tokens line with
